@@ -255,3 +255,25 @@ package bt
 //@   ensures[C16.amount_decoded] (=> (= err nil) (forall ((s Int)) (=> (spec.coin_close (old (. o Value)) s) (= (. result Satoshis) s))))
 //@ func bt.(*nodeUTXOWrapper).UnmarshalJSON
 //@   lemma (forall ((s Int)) (=> (spec.coin_close (. uj Amount) s) (= (. (. n UTXO) Satoshis) s)))
+//@ func bt.(*Output).LockingScriptHexString
+//@   requires (not (nil? (. o LockingScript)))
+//@ func bt.(*UTXO).LockingScriptHexString
+//@   requires (not (nil? (. u LockingScript)))
+//@ func bt.(*nodeTxWrapper).MarshalJSON
+//@   requires (not (nil? (. n Tx))) (spec.wf_tx_json (. n Tx))
+//@ func bt.(*nodeOutputWrapper).MarshalJSON
+//@   requires (not (nil? (. n Output))) (not (nil? (. (. n Output) LockingScript))) (<= (. (. n Output) Satoshis) 2100000000000000)
+//@ func bt.(*nodeUTXOWrapper).MarshalJSON
+//@   requires (not (nil? (. n UTXO))) (not (nil? (. (. n UTXO) LockingScript)))
+//@ func bt.(*UTXO).MarshalJSON
+//@   requires (not (nil? (. u LockingScript)))
+//@ func bt.(*Output).MarshalJSON
+//@   requires (not (nil? (. o LockingScript)))
+//@ func bt.(*Tx).NodeJSON
+//@   ensures[nodejson_tx] (and (has-type result *bt.nodeTxWrapper) (not (nil? (unbox result *bt.nodeTxWrapper))) (= (. (unbox result *bt.nodeTxWrapper) Tx) tx))
+//@ func bt.(*UTXO).NodeJSON
+//@   ensures[nodejson_utxo] (and (has-type result *bt.nodeUTXOWrapper) (not (nil? (unbox result *bt.nodeUTXOWrapper))) (= (. (unbox result *bt.nodeUTXOWrapper) UTXO) u))
+//@ func bt.nodeTxsWrapper.MarshalJSON
+//@   requires (forall ((k Int)) (=> (and (<= 0 k) (< k (len nn))) (not (nil? (at nn k)))))
+//@ func bt.nodeUTXOsWrapper.MarshalJSON
+//@   requires (forall ((k Int)) (=> (and (<= 0 k) (< k (len nn))) (not (nil? (at nn k)))))
